@@ -233,14 +233,34 @@ static int recv_events(m_ctx_t *c, int timeout) {
     fetch_ms(&now, NULL);
     c->stats.idle_time += now - last_time_called;
 
-    for (int i = 0; i < nfds && !err; i++) {
+    /*
+     * Callbacks run while processing this batch may pause, stop or deregister modules (or deregister sources)
+     * whose events come later in this same batch: keep sources and modules of the whole batch alive,
+     * and do not deliver events of modules that are no more running.
+     */
+    for (int i = 0; i < nfds; i++) {
         ev_src_t *p = poll_recv(&c->ppriv, i);
         if (p) {
+            m_mem_ref(p->mod);
+            m_mem_ref(p);
+        }
+    }
+
+    for (int i = 0; i < nfds; i++) {
+        ev_src_t *batch_src = poll_recv(&c->ppriv, i);
+        ev_src_t *p = batch_src;
+        m_mod_t *batch_mod = p ? p->mod : NULL;
+        if (err) {
+            /* batch processing was interrupted: just drop our references */
+        } else if (p && p->mod && !m_mod_is(p->mod, M_MOD_RUNNING)) {
+            /* module left RUNNING state earlier in this batch: its events stay pending */
+        } else if (p) {
             M_ASSERT(p->process);
             if (!p->mod) {
                 // It is a ctx priv event
                 p = p->process(p, c, i, NULL);
                 recved++;
+                m_mem_unref(batch_src);
                 continue;
             }
 
@@ -304,6 +324,8 @@ static int recv_events(m_ctx_t *c, int timeout) {
             err = EAGAIN;
             M_WARN("Received message without proper source: src -> %p\n", p);
         }
+        m_mem_unref(batch_src);
+        m_mem_unref(batch_mod);
     }
 
     if (recved > 0 && err == 0) {
